@@ -174,6 +174,55 @@ def dependent_rows(ctx, functionals, prefix):
     return n
 
 
+def shared_leaf_rows(ctx, functionals, prefix):
+    """limits / time grid / initial state computed from the same leaf as the parameter: total derivative against closed forms"""
+    n = 0
+    with warnings.catch_warnings():
+        warnings.simplefilter("ignore")
+        for cg in (False, True):
+            if "quad" in functionals:
+                n += 1
+                ctx.case(key=("shared-leaf", "quad", cg))
+                why = None
+                try:
+                    a = torch.tensor(0.7, dtype=DT, requires_grad=True)
+                    v = xitorch.integrate.quad(lambda x, a_: torch.exp(a_ * x), a * 0.1, a * 2.0, params=(a,), n=30)
+                    g, = torch.autograd.grad(v, a, create_graph=cg)
+                    a2 = torch.tensor(0.7, dtype=DT, requires_grad=True)
+                    gr, = torch.autograd.grad((torch.exp(a2 * a2 * 2) - torch.exp(a2 * a2 * 0.1)) / a2, a2, create_graph=True)
+                    if abs(float(g) - float(gr)) > 1e-8:
+                        why = "d/da of the integral of exp(a x) over [0.1 a, 2 a] is %.10f, closed form %.10f" % (float(g), float(gr))
+                    elif cg:
+                        h, = torch.autograd.grad(g, a)
+                        hr, = torch.autograd.grad(gr, a2)
+                        if abs(float(h) - float(hr)) > 1e-6 * max(1.0, abs(float(hr))):
+                            why = "second derivative %.8f, closed form %.8f" % (float(h), float(hr))
+                except Exception as e:
+                    why = "raised %s: %s" % (type(e).__name__, str(e)[:140])
+                if why:
+                    ctx.violation("%s/shared-leaf/quad" % prefix, "quad with limits computed from the parameter leaf (backward %s graph recording): %s" % ("with" if cg else "without", why), {"cg": cg})
+            if "solve_ivp" in functionals:
+                for method, kw, tol in (("rk4", {}, 1e-6), ("rk45", {"rtol": 1e-10, "atol": 1e-12}, 1e-8)):
+                    n += 1
+                    ctx.case(key=("shared-leaf", "solve_ivp", method, cg))
+                    why = None
+                    try:
+                        a = torch.tensor(0.7, dtype=DT, requires_grad=True)
+                        ts = torch.linspace(0, 1, 21, dtype=DT) * (1.0 + a)
+                        yt = xitorch.integrate.solve_ivp(lambda t_, y, a_: -a_ * y, ts, torch.ones(1, dtype=DT) * a, params=(a,), method=method, **kw)
+                        g, = torch.autograd.grad(yt[-1].sum(), a, create_graph=cg)
+                        a2 = torch.tensor(0.7, dtype=DT, requires_grad=True)
+                        gr, = torch.autograd.grad(a2 * torch.exp(-a2 * (1 + a2)), a2)
+                        if abs(float(g) - float(gr)) > tol:
+                            why = "d/da of y(T(a); y0(a), a) is %.10f, closed form %.10f" % (float(g), float(gr))
+                    except Exception as e:
+                        why = "raised %s: %s" % (type(e).__name__, str(e)[:140])
+                    if why:
+                        ctx.violation("%s/shared-leaf/solve_ivp" % prefix, "solve_ivp(%s) with time grid, initial state and parameter computed from one leaf (backward %s graph recording): %s"
+                                      % (method, "with" if cg else "without", why), {"method": method, "cg": cg})
+    return n
+
+
 def replay(ctx, functionals, prefix):
     c = dict(Functionals=set(functionals), Len3=3)
     t, cf = tlcmod.gen_mc(ctx.work, "GradPattern", "MC_GradPattern", c, invariants=["NeverRaises", "OnlyDifferentiableGetGradients"])
@@ -211,4 +260,4 @@ def replay(ctx, functionals, prefix):
             if why:
                 ctx.violation("%s/gradpattern/%s" % (prefix, fname), "%s with extra parameters of kinds %s (tg: tensor requiring grad, tu: unused tensor requiring grad, tn: tensor without grad, num: number): %s"
                               % (fname, ks, why), {"f": fname, "ks": ks})
-    return n + dependent_rows(ctx, functionals, prefix) + precision_rows(ctx, functionals, prefix)
+    return n + dependent_rows(ctx, functionals, prefix) + precision_rows(ctx, functionals, prefix) + shared_leaf_rows(ctx, functionals, prefix)
